@@ -24,14 +24,15 @@
    (line reader, lines_chunk_refuted) and (b) its scanner analogue: exactly MaxScanTokenSize
    bytes without a delimiter at the very end of the input (not reachable below omniparser's
    bufio.Reader.Read, which never hands data and error over together).
-   NOT proved (model + correspondence on every run): BytesReplacingReader for longer tokens
-   (not constructed by omniparser); encoding/csv|json|xml are assumed chunk-invariant. *)
+   BytesReplacingReader is also proved in general (any non-empty search token, any replacement:
+   brrg_reader_ok, a_replace = leftmost non-overlapping replacement); the one-byte instances are
+   its corollaries.  encoding/csv|json|xml are assumed chunk-invariant. *)
 From Coq Require Import List NArith Bool Arith Lia.
 From Coq.Strings Require Import Byte.
 Import ListNotations.
 From OV Require Import Base.Bytes Model.Chunk Proofs.Chunk Proofs.ChunkLines Proofs.ChunkBom Proofs.ChunkTop
   Proofs.ChunkBRR Proofs.ChunkBufRead Proofs.ChunkStack Proofs.ChunkAlias Proofs.ChunkDecode
-  Proofs.ChunkScan Proofs.ChunkFind.
+  Proofs.ChunkScan Proofs.ChunkFind Proofs.ChunkBRRGen.
 
 (* A consumer that reads a source to the end with reads of any fixed positive size sees the same
    bytes and the same final error under every chunking of the same bytes. *)
@@ -105,6 +106,37 @@ Theorem brr_chunk_invariant : forall s repl cap fuel fuel' F F' cs cs' wl wl' t,
   drain_rd _ (brr_rd s repl 4096 source io_read fuel) F cap (brr_init, mkSrc cs wl t) =
   drain_rd _ (brr_rd s repl 4096 source io_read fuel') F' cap (brr_init, mkSrc cs' wl' t).
 Proof. exact brr_chunk_invariant. Qed.
+
+(* BytesReplacingReader in general: any non-empty search token, any replacement (shorter, equal,
+   longer; buffer >= both), over any reader meeting the contract: meets the contract for the stream
+   a_replace search repl 0 data (every leftmost non-overlapping occurrence replaced). *)
+Theorem brrg_reader_ok : forall search repl, 1 <= length search ->
+  forall bufsize, length search <= bufsize /\ length repl <= bufsize /\ 0 < bufsize ->
+  forall St sread Rep wt lead, reader_ok St sread Rep wt lead -> forall fuel,
+  reader_ok (brr * St) (brrg_rd search repl bufsize St sread fuel)
+            (brrg_rep_f search repl bufsize St Rep wt fuel) (brrg_wt search repl St wt) (fun _ => 0).
+Proof. exact brrg_reader_ok. Qed.
+
+Theorem brrg_chunk_invariant : forall search repl bufsize cap fuel fuel' F F' cs cs' wl wl' t,
+  1 <= length search -> length search <= bufsize -> length repl <= bufsize ->
+  0 < cap -> concat cs = concat cs' -> runs_ok cs = true -> runs_ok cs' = true ->
+  weight cs + 1 < fuel -> weight cs' + 1 < fuel' ->
+  2 * mm search repl * weight cs < F -> 2 * mm search repl * weight cs' < F' ->
+  drain_rd _ (brrg_rd search repl bufsize source io_read fuel) F cap (brr_init, mkSrc cs wl t) =
+  drain_rd _ (brrg_rd search repl bufsize source io_read fuel') F' cap (brr_init, mkSrc cs' wl' t).
+Proof. exact brrg_chunk_invariant. Qed.
+
+Theorem a_replace_single : forall s repl l, a_replace [s] repl 0 l = a_replace1 s repl l.
+Proof. exact a_replace_single. Qed.
+
+(* Non-vacuity: "ab" -> "xyz" (longer) on "aabab" + "b", cut inside both occurrences. *)
+Example brrg_nonvacuous :
+  let cs := [[x61; x61]; [x62; x61]; []; [x62]; [x62]] in
+  runs_ok cs = true /\
+  drain_rd _ (brrg_rd [x61; x62] [x78; x79; x7a] 8 source io_read 40) 80 3 (brr_init, mkSrc cs true TEof)
+  = Ok (a_replace [x61; x62] [x78; x79; x7a] 0 (concat cs), IoEOF) /\
+  a_replace [x61; x62] [x78; x79; x7a] 0 (concat cs) = [x61; x78; x79; x7a; x78; x79; x7a; x62].
+Proof. vm_compute. repeat split; reflexivity. Qed.
 
 (* Composition for the EDI byte stack: what StripBOM -> Read -> CR removal -> LF removal hands
    to its consumer is a_replace1 LF (a_replace1 CR (a_strip_bom bytes)), under every chunking.
